@@ -1,5 +1,5 @@
 (* Extraction entry point for C07 (packet decoders) *)
-From NDN Require Import Base.Prelude Base.Sexp Model.TlvVar Model.Name Model.Tlv Model.Packet Spec.StrictTlv Extract.TlvSexp.
+From NDN Require Import Base.Prelude Base.Sexp Model.TlvVar Model.Name Model.Tlv Model.Packet Spec.StrictTlv Spec.SignedPortion Extract.TlvSexp.
 From Coq Require Extraction ExtrOcamlBasic.
 Local Open Scope N_scope.
 
@@ -19,6 +19,11 @@ Definition run (req : sexp) : sexp :=
       or_bad (odo f <- as_fields fs ;; odo i <- as_bool ic ;; Some (s_res s_values (parse_model (depth_of f) f i w)))
   | SList [SNum 21; fs; ic; SBytes w] =>
       or_bad (odo f <- as_fields fs ;; odo i <- as_bool ic ;; Some (s_res s_values (strict_model (depth_of f) f i w)))
+  (* specification of the signed / digest portions of a packet value (Spec/SignedPortion.v) *)
+  | SList [SNum 30; SBytes v] => s_opt SBytes (signed_portion_data v)
+  | SList [SNum 31; SBytes v] => s_opt SBytes (signed_portion_interest v)
+  | SList [SNum 32; SBytes v] => s_opt SBytes (digest_portion v)
+  | SList [SNum 33; SBytes v] => s_opt SBytes (digest_component v)
   | _ => s_bad_request
   end.
 
